@@ -6,6 +6,7 @@ import (
 	"encoding/json"
 	"fmt"
 	"net/url"
+	"os"
 	"sort"
 	"strings"
 	"sync"
@@ -1084,4 +1085,68 @@ func TestC18_DifferentParametersInFlight(t *testing.T) {
 		}
 	}
 	c18Par.rec().Exhaustive()
+}
+
+// ---------------------------------------------------------------------------
+// Fresh processes. The secret endpoint "reflects the library's secret generator", which draws from the operating system's
+// random source: what two freshly started server processes hand out first can never coincide. A generator that is seeded
+// deterministically at start-up (a fake that leaked into the normal build, math/rand) gives every single answer the right
+// shape — only a second process shows it.
+type c18FreshCase struct {
+	Processes int `json:"processes"`
+	PerAlgo   int `json:"secrets_per_hash"`
+}
+
+var c18Fresh = newPart("C18", "fresh-processes",
+	"two further server processes are started from the same binary and asked for secrets (3 hashes x 4 requests each) before anything else: every answer is unpadded upper-case base32 of 20 / 32 / 64 bytes and all secrets — within a process, across the processes, and against the shared server — are pairwise different; one case",
+	func(c c18FreshCase) verdict {
+		bin := os.Getenv("VERIF_SERVER_BIN")
+		seen := map[string]string{}
+		algos := []struct {
+			name string
+			n    int
+		}{{"SHA1", 20}, {"SHA256", 32}, {"SHA512", 64}}
+		ask := func(sv *restServer, who string) error {
+			for k := 0; k < c.PerAlgo; k++ {
+				for _, a := range algos {
+					r := sv.do("GET", "/otp/secret?algorithm="+a.name, nil, true, 15*time.Second)
+					s := r.str("secret")
+					b, good := ref.B32DecodeLoose(s)
+					if r.Err != nil || r.Status != 200 || !good || len(b) != a.n || ref.B32(b) != s {
+						return fmt.Errorf("%s: GET /otp/secret?algorithm=%s -> %s; want unpadded upper-case base32 of %d bytes", who, a.name, r.brief(), a.n)
+					}
+					at := fmt.Sprintf("%s, %s request %d", who, a.name, k+1)
+					if prev, dup := seen[s]; dup {
+						return fmt.Errorf("the secret %q was handed out twice: %s and %s — two processes (or two requests) never draw the same bytes from the operating system's random source", s, prev, at)
+					}
+					seen[s] = at
+				}
+			}
+			return nil
+		}
+		for p := 0; p < c.Processes; p++ {
+			sv, err := startServer(bin)
+			if err != nil {
+				fmt.Println("INFRA: cannot start a further REST server:", err)
+				os.Exit(3)
+			}
+			err = ask(sv, fmt.Sprintf("fresh process %d", p+1))
+			sv.cmd.Process.Kill()
+			sv.cmd.Wait()
+			if err != nil {
+				return bad(true, nil, "%v", err)
+			}
+		}
+		if err := ask(server(), "the shared server"); err != nil {
+			return bad(true, nil, "%v", err)
+		}
+		return ok(true, fmt.Sprintf("secrets=%d", len(seen)))
+	})
+
+func TestC18_FreshProcesses(t *testing.T) {
+	defer c18Fresh.rec().Flush()
+	if ev.Mine(0) {
+		c18Fresh.each(t, c18FreshCase{Processes: 2, PerAlgo: 4})
+	}
+	c18Fresh.rec().Exhaustive()
 }
